@@ -634,6 +634,7 @@ def mon_C08(stream, case, obs):
     hits = []
     now = 0
     last_tx = {}          # conn -> time of last accepted byte
+    first_tx = {}         # conn -> time of its first byte (CONNECT)
     ping_at = None        # time the outstanding PINGREQ was written (current connection)
     ping_on_wire = False
     odd_broker = False
@@ -652,6 +653,7 @@ def mon_C08(stream, case, obs):
         for it in st["items"]:
             if it[0] == "tx":
                 last_tx[it[1]] = now
+                first_tx.setdefault(it[1], now)
                 if it[2]["type"] == "PINGREQ":
                     wrote_ping = True
                     if K == 0:
@@ -694,6 +696,9 @@ def mon_C08(stream, case, obs):
             elif disc16 and established:
                 # (no PINGREQ written on this connection has been unanswered for K)
                 hits.append((i, "spurious-timeout", f"connection closed for keep-alive although no PINGREQ was unanswered for K on it (outstanding since {ping_at}, now {now})"))
+            elif disc16 and not established and ping_at is None and sock_before in first_tx and now - first_tx[sock_before] < K:
+                # a connection still waiting for its CONNACK, younger than K, on which no PINGREQ was ever written
+                hits.append((i, "spurious-timeout", f"connection opened {now - first_tx[sock_before]} ms ago (K={K}), no PINGREQ written on it, was closed for keep-alive"))
             elif established and ping_at is None and idle >= K and p.get("st") in ("connected", "lost", "disconnected", "disconnecting"):
                 blocked = p.get("ww") == "1"
                 if not wrote_ping and not blocked and cur == sock_before:
